@@ -171,3 +171,41 @@ def check(ctx, r, rid="R8"):
     else:
         r.inst("t_macro_inner", "%d generated expansions (5 argument lists incl. `a = b, b = a` and an inline component x 3 output kinds x 3 input kinds x "
                "both cfg branches) read back: every setter var_K / comp_K receives the value the caller supplied for K, once, in order" % n)
+
+
+def check_selectors(ctx, r, rid="R2"):
+    """t_macro_inner evaluated for every (input kind, output kind), with and without arguments: the expansion reads the keys through
+    the accessor of its input kind, opens the builder of its output kind and finishes with the build function of the same kind"""
+    ast = ctx.ast
+    fn = ast.fn(TM, "t_macro_inner")
+    if fn is None:
+        r.missing("t_macro_inner")
+        return
+    absint.set_program(ast)
+    getters = {"Context": "leptos_i18n :: I18nContext :: get_keys ( CTX ) . KEYS ( )", "Untracked": "leptos_i18n :: I18nContext :: get_keys_untracked ( CTX ) . KEYS ( )",
+               "Locale": "leptos_i18n :: Locale :: get_keys ( CTX ) . KEYS ( )"}
+    fns = {"View": ("builder", "build ( ) . into_view"), "String": ("display_builder", "build_string"), "Display": ("display_builder", "build_display")}
+    norm = lambda t: " ".join(tokenize(t))  # noqa: E731
+    for out, (bf, fin) in fns.items():
+        bad = None
+        for inp, getter in getters.items():
+            for args in (None, [("Var", "c", "c")]):
+                ev = AEval(funcs={})
+                ev.cfg = lambda t: False
+                inter = C("None") if args is None else C("Some", L(*[_mk(*a) for a in args]))
+                v = ev.run_fn(fn, [CF("ParsedInput", context=TOK("CTX"), keys=TOK("KEYS"), interpolations=inter), C(inp), C(out)])
+                if isinstance(v, str) or v[0] != "tok":
+                    raise Unknown("%s (t_macro_inner %s/%s)" % (v if isinstance(v, str) else absint.fmt(v)[:60], inp, out))
+                txt = norm(v[1])
+                key = norm(getter)
+                if args is not None and out != "View":
+                    key = "leptos_i18n :: __private :: InterpolationStringBuilder :: check ( %s )" % key
+                want_open = "let _builder = %s . %s ( ) ;" % (key, norm(bf))
+                want_close = "_builder . %s ( )" % norm(fin)
+                if want_open not in txt or not re.search(re.escape(want_close) + r"\s*\}", txt) or txt.count("_builder . " + norm(fin)) != 1:
+                    bad = bad or "t!(%s input%s) as %s expands to `%s`; expected the builder opened with `%s` and finished with `%s`" % (inp, ", one argument" if args else "", out, txt[:260], want_open, want_close)
+        if bad:
+            r.viol("%s:t_macro_inner#%s" % (rid, out), bad, file=TM, line=fn.line)
+        else:
+            r.inst("OutputType::%s" % out, "%s + %s on the keys read through the accessor of each input kind (6 expansions)" % (bf, fin))
+    r.inst("t_macro_inner", "accessor of the input kind, builder / build function of the output kind - read off the generated code")
